@@ -17,8 +17,15 @@
   time which one the working tree corresponds to.
 -/
 import FordModel.Basic.Chars
+import FordModel.Generated.C10
 namespace Ford.Names
 open Ford
+
+/-- `(nm! "abc")` is the literal `['a', 'b', 'c']` (string literals are byte arrays in this Lean
+    version; unfolding `String.toList` on them inside `simp`/unification is slow) -/
+macro "nm! " s:str : term => do
+  let elems := s.getString.toList.toArray.map fun c => Lean.Syntax.mkCharLit c
+  `([$elems,*])
 
 inductive Variant
   | asIs
@@ -91,14 +98,89 @@ def opNames : List Str :=
    "operator(==)", "operator(/=)", "operator(<)", "operator(<=)", "operator(>)", "operator(>=)",
    "assignment(=)", "<em>unnamed</em>"].map String.toList
 
+/-! #### generic specs written with blanks
+
+  FORD keeps the name of a generic interface exactly as written (`INTERFACE_RE`
+  captures `.+`): `interface operator (+)`, `interface operator( < )`,
+  `interface assignment ( = )` are entities called `operator (+)`, `operator( < )`,
+  `assignment ( = )` - different names (different pages) for FORD.  Fortran allows
+  any number of blanks between the tokens `operator`, `(`, the operator, `)`. -/
+
+def blanks (n : Nat) : Str := List.replicate n ' '
+
+/-- keyword and operator token of the generic specs of `opNames` -/
+def opCores : List (Str × Str) :=
+  [(nm! "operator", nm! "+"), (nm! "operator", nm! "-"), (nm! "operator", nm! "*"), (nm! "operator", nm! "/"),
+   (nm! "operator", nm! "**"), (nm! "operator", nm! "//"), (nm! "operator", nm! "=="), (nm! "operator", nm! "/="),
+   (nm! "operator", nm! "<"), (nm! "operator", nm! "<="), (nm! "operator", nm! ">"), (nm! "operator", nm! ">="),
+   (nm! "assignment", nm! "=")]
+
+/-- `kw ( op )` with `a` blanks after the keyword and `b`, `c` blanks inside the parentheses -/
+def spellOp (p : Str × Str) (a b c : Nat) : Str :=
+  p.1 ++ (blanks a ++ '(' :: (blanks b ++ (p.2 ++ (blanks c ++ [')']))))
+
+/-- split before the first blank or `(` -/
+def kwSplit : Str → Str × Str
+  | [] => ([], [])
+  | c :: cs => if c = ' ' ∨ c = '(' then ([], c :: cs) else (c :: (kwSplit cs).1, (kwSplit cs).2)
+
+/-- number of leading blanks, and the rest -/
+def skipBlanks : Str → Nat × Str
+  | [] => (0, [])
+  | c :: cs => if c = ' ' then ((skipBlanks cs).1 + 1, (skipBlanks cs).2) else (0, c :: cs)
+
+/-- read a string as `kw blanks ( blanks op blanks )`: ((kw, op), a, b, c) -/
+def parseSp (n : Str) : Option ((Str × Str) × Nat × Nat × Nat) :=
+  let k := kwSplit n
+  let r1 := skipBlanks k.2
+  match r1.2 with
+  | [] => none
+  | o :: r2 =>
+    if o = '(' then
+      let r3 := skipBlanks r2
+      match r3.2.reverse with
+      | [] => none
+      | d :: r4 =>
+        if d = ')' then
+          let r5 := skipBlanks r4
+          some ((k.1, r5.2.reverse), r1.1, r3.1, r5.1)
+        else none
+    else none
+
+/-- a (lower-cased) name is one of the generic specs of `opCores`, written with any blanks
+    between its tokens -/
+def OpSpelled (l : Str) : Prop :=
+  match parseSp l with
+  | some (p, a, b, c) => p ∈ opCores ∧ l = spellOp p a b c
+  | none => False
+
+instance (l : Str) : Decidable (OpSpelled l) := by
+  unfold OpSpelled; split <;> infer_instance
+
+/-- what the symbol replacement makes of keyword and operator token -/
+def coreImg (T : Cfg) (p : Str × Str) : Str × Str := (replaceAll T.table p.1, replaceAll T.table p.2)
+
+/-- a string is not what the replacement makes of a generic spec of `opCores` (in any spacing) -/
+def NotOpImage (T : Cfg) (l : Str) : Prop :=
+  match parseSp l with
+  | some (q, _) => q ∉ opCores.map (coreImg T)
+  | none => True
+
+instance (T : Cfg) (l : Str) : Decidable (NotOpImage T l) := by
+  unfold NotOpImage; split <;> infer_instance
+
 /-- Names without any replaced symbol and without the suffix separator, other
-    than the reserved stem of unnamed entities and the images of `opNames`:
-    Fortran identifiers in any letter case, `operator(.name.)`, the empty name,
-    file names such as `a.f90`. -/
+    than the reserved stem of unnamed entities and the images of `opNames` and of the
+    blank-separated generic specs: Fortran identifiers in any letter case,
+    `operator(.name.)`, `operator ( + )`, the empty name, file names such as `a.f90`
+    or `my mod.f90`. -/
 def Plain (T : Cfg) (S : List Str) (n : Str) : Prop :=
   (∀ p ∈ T.table, p.1 ∉ lower n) ∧ T.sep ∉ lower n ∧ lower n ≠ T.unnamed ∧ lower n ∉ S.map (baseL T)
+    ∧ NotOpImage T (lower n)
 
-def Legal (T : Cfg) (S : List Str) (n : Str) : Prop := Plain T S n ∨ lower n ∈ S
+/-- The names a Fortran project can give to FORD: plain names, the listed special
+    names, and `operator`/`assignment` generic specs in any spacing. -/
+def Legal (T : Cfg) (S : List Str) (n : Str) : Prop := Plain T S n ∨ lower n ∈ S ∨ OpSpelled (lower n)
 
 instance (T : Cfg) (S : List Str) (n : Str) : Decidable (Plain T S n) := by
   unfold Plain; infer_instance
@@ -230,10 +312,11 @@ def parentIsInterface : Option Kind → Bool
   | some p => isInterfaceKind p
   | none => false
 
-/-- `FortranProcedure.is_interface_procedure`: `ident` of such a procedure is the
-    stem of its (non-generic) interface, and its directory is `interface`. -/
+/-- `FortranProcedure.is_interface_procedure` (the condition itself is *generated* from the
+    source, `Generated.C10.isInterfaceProcedure`): `ident` of such a procedure is the
+    stem of its parent interface, and its directory is `interface`. -/
 def identBorrows (k : Kind) (parent : Option Kind) (parentGeneric : Bool) : Bool :=
-  isProcKind k && parentIsInterface parent && !parentGeneric
+  isProcKind k && Ford.Generated.C10.isInterfaceProcedure (parentIsInterface parent) parentGeneric
 
 /-- `get_dir()` including the overrides in `FortranSubmodule`, `FortranProcedure`
     (`is_interface_procedure`) and `FortranInterface` (unnamed ⇒ no page).
@@ -245,6 +328,26 @@ def dirOf (k : Kind) (parent : Option Kind) (parentGeneric named : Bool) : Optio
   else if isInterfaceKind k && !named then none
   else if alwaysPage k || (condPage k && pageParent parent) then some (objOf k)
   else none
+
+/-! ### interface blocks: which interface entities exist, and with which children -/
+
+/-- One `interface` block as written: named? `abstract`? and the procedure bodies
+    (subroutine/function interface bodies, by identity) it contains. -/
+structure Block where
+  named : Bool
+  abstract : Bool
+  bodies : List Nat
+deriving DecidableEq, Repr
+
+/-- The interface entities FORD keeps for one block, as (`generic`, procedure children):
+    `FortranInterface._initialize` sets `generic = bool(name)` and raises for a generic
+    abstract block; `_cleanup` leaves a generic block alone (one entity, all bodies are
+    its children) and replaces every other block by one `FortranModuleProcedureInterface`
+    per body (`generic = False`, the body becomes the only child: `procedure.parent = self`). -/
+def ifaceEntities (b : Block) : List (Bool × List Nat) :=
+  if b.named && b.abstract then []
+  else if b.named then [(true, b.bodies)]
+  else b.bodies.map (fun p => (false, [p]))
 
 /-! ### URL and output file -/
 
